@@ -11,8 +11,9 @@
   generic `compileArgs_sem` / `lift_argSem` of that file, instantiated with the new run-time meaning.
 -/
 import PrologVerif.Proofs.RefineFrag
+import PrologVerif.Proofs.RefineITree
 namespace PrologVerif.Refine
-open PrologVerif PrologVerif.VM PrologVerif.DecompileCompile PrologVerif.Activation
+open PrologVerif PrologVerif.VM PrologVerif.DecompileCompile PrologVerif.Activation PrologVerif.RefineITree
 
 /-- every variable of `t` is non-zero (variable 0 is the VM's context variable) and below `N` -/
 def TOk (N : Nat) (t : Term) : Prop := ∀ v, t.hasVar v = true → 0 < v ∧ v < N
@@ -62,7 +63,8 @@ theorem UChain.single {N : Nat} {e e1 : Env} {a b : Term} (ha : TOk N a) (hb : T
 theorem unifyThen_cases2 {env : Env} {a b : Term} {m : MS} {X : Env → Option (Pr × MS)} {res : Pr × MS}
     (h : unifyThen env a b m X = some res) :
     (∃ env', unify inner false env a b = some (env', .ok) ∧
-      (∀ θ, Sol env' θ ↔ (Sol env θ ∧ a.subst θ = b.subst θ)) ∧ X env' = some res) ∨
+      (∀ θ, Sol env' θ ↔ (Sol env θ ∧ a.subst θ = b.subst θ)) ∧
+      (∀ θ : IAsg, ISol env' θ → ISol env θ ∧ interp θ a = interp θ b) ∧ X env' = some res) ∨
     (res = (failP, m) ∧ ∀ θ, Sol env θ → a.subst θ ≠ b.subst θ) := by
   unfold unifyThen at h
   cases hu : unify inner false env a b with
@@ -71,16 +73,45 @@ theorem unifyThen_cases2 {env : Env} {a b : Term} {m : MS} {X : Env → Option (
     obtain ⟨env', r⟩ := p
     have hs := unify_spec inner false env a b env' r hu
     cases r with
-    | ok => rw [hu] at h; exact Or.inl ⟨env', rfl, hs, h⟩
+    | ok => rw [hu] at h; exact Or.inl ⟨env', rfl, hs, unify_isound _ _ _ _ _ _ hu, h⟩
     | clash => rw [hu] at h; simp only [Option.some.injEq] at h; exact Or.inr ⟨h.symm, hs⟩
     | occurs => rw [hu] at h; simp only [Option.some.injEq] at h; exact Or.inr ⟨h.symm, hs⟩
 
-/-- what running head code ends in: as `HeadOutcome`, with the chain -/
-def HeadOutcome2 (fuel : Nat) (m : MS) (env : Env) (E : Subst → Prop)
+/-- θ unifies `xs` and `ys` pointwise, in infinite trees -/
+def IUnifiesL (θ : IAsg) (xs ys : List Term) : Prop := xs.map (interp θ) = ys.map (interp θ)
+
+/-- soundness in infinite trees: a tree solution of `env'` solves `env` and the equations `EI` -/
+def ISound (env : Env) (EI : IAsg → Prop) (env' : Env) : Prop :=
+  ∀ θ : IAsg, ISol env' θ → ISol env θ ∧ EI θ
+
+/-- what running head code ends in: as `HeadOutcome`, with the chain and soundness in trees -/
+def HeadOutcome2 (fuel : Nat) (m : MS) (env : Env) (E : Subst → Prop) (EI : IAsg → Prop)
     (cont : Nat → Env → MS → Option (Pr × MS)) (res : Pr × MS) : Prop :=
   (∃ N', m.user.nextVar ≤ N' ∧ res = (failP, bump m N') ∧ ∀ θ, Sol env θ → ¬ E θ) ∨
   (∃ fuel' env' N', fuel' ≤ fuel ∧ cont fuel' env' (bump m N') = some res ∧
-    MGUStep m.user.nextVar env E N' env' ∧ UChain m.user.nextVar env N' env')
+    MGUStep m.user.nextVar env E N' env' ∧ UChain m.user.nextVar env N' env' ∧ ISound env EI env')
+
+mutual
+  theorem interp_congr {θ θ' : IAsg} : ∀ t : Term, (∀ v, t.hasVar v = true → θ v = θ' v) →
+      interp θ t = interp θ' t
+    | .var v, h => h v (by simp [Term.hasVar])
+    | .atom _, _ => rfl
+    | .int _, _ => rfl
+    | .flt _, _ => rfl
+    | .str _, _ => rfl
+    | .app f as, h => by
+      simp only [interp]
+      exact node_congr (interpArgs_congr as (fun v hv => h v (by simpa [Term.hasVar] using hv)))
+  theorem interpArgs_congr {θ θ' : IAsg} : ∀ as : Args, (∀ v, as.hasVar v = true → θ v = θ' v) →
+      ∀ i, interpArgs θ as i = interpArgs θ' as i
+    | .nil, _, _ => rfl
+    | .cons t ts, h, 0 => by
+      simp only [interpArgs]
+      exact interp_congr t (fun v hv => h v (by simp [Args.hasVar, hv]))
+    | .cons t ts, h, i + 1 => by
+      simp only [interpArgs]
+      exact interpArgs_congr ts (fun v hv => h v (by simp [Args.hasVar, hv])) i
+end
 
 def GetsR2 (vars : List Nat) (ops : List Op) (ps : List Term) : Prop :=
   ∀ (fuel : Nat) (rest : List Op) (k : Cont) (as args : List Term) (astack : List Frame)
@@ -88,7 +119,7 @@ def GetsR2 (vars : List Nat) (ops : List Op) (ps : List Term) : Prop :=
     as.length = ps.length → 0 < m.user.nextVar → (∀ a ∈ as, TOk m.user.nextVar a) →
     (∀ p ∈ ps, TOk m.user.nextVar p) → SolBelow m.user.nextVar env →
     exec fuel (ops ++ rest) vars k (as ++ args) astack env cp m = some res →
-    HeadOutcome2 fuel m env (fun θ => UnifiesL θ as ps)
+    HeadOutcome2 fuel m env (fun θ => UnifiesL θ as ps) (fun θ => IUnifiesL θ as ps)
       (fun f e m' => exec f rest vars k args astack e cp m') res
 
 theorem GetsR2_nil (vars : List Nat) : GetsR2 vars [] [] := by
@@ -96,7 +127,8 @@ theorem GetsR2_nil (vars : List Nat) : GetsR2 vars [] [] := by
   have : as = [] := List.eq_nil_of_length_eq_zero hl
   subst this
   exact Or.inr ⟨fuel, env, m.user.nextVar, Nat.le_refl _, by simpa using h,
-    (MGUStep.refl hb).congr (fun θ => by simp [UnifiesL]), .refl (Nat.le_refl _)⟩
+    (MGUStep.refl hb).congr (fun θ => by simp [UnifiesL]), .refl (Nat.le_refl _),
+    fun θ hs => ⟨hs, by simp [IUnifiesL]⟩⟩
 
 theorem GetsR2_unify1 (vars : List Nat) (op : Op) (b : Term)
     (hstep : ∀ n pc k a rest astack env cp m,
@@ -112,9 +144,10 @@ theorem GetsR2_unify1 (vars : List Nat) (op : Op) (b : Term)
     rw [hstep] at h
     have haB : TBelow m.user.nextVar a := (ha a (by simp)).below
     have hbB : TBelow m.user.nextVar b := (hp b (by simp)).below
-    rcases unifyThen_cases2 h with ⟨env', hu, hiff, hx⟩ | ⟨rfl, hf⟩
+    rcases unifyThen_cases2 h with ⟨env', hu, hiff, hi, hx⟩ | ⟨rfl, hf⟩
     · refine Or.inr ⟨n, env', m.user.nextVar, Nat.le_succ n, by simpa using hx, ?_,
-        UChain.single (ha a (by simp)) (hp b (by simp)) hu⟩
+        UChain.single (ha a (by simp)) (hp b (by simp)) hu,
+        fun θ hs => ⟨(hi θ hs).1, by simp [IUnifiesL, (hi θ hs).2]⟩⟩
       have : MGUStep m.user.nextVar env (fun θ => a.subst θ = b.subst θ) m.user.nextVar env' :=
         MGUStep.of_iff hiff hb (fun θ θ' hag he => by rw [← haB θ θ' hag, ← hbB θ θ' hag]; exact he)
       exact this.congr (fun θ => UnifiesL.single.symm)
@@ -147,23 +180,58 @@ theorem GetsR2_append {vars : List Nat} {ops1 ops2 : List Op} {ps1 ps2 : List Te
   have hp2B : ∀ p ∈ ps2, TBelow m.user.nextVar p := fun p hm => (hp2 p hm).below
   rw [List.append_assoc, List.append_assoc] at h
   rcases h1 fuel (ops2 ++ rest) k as1 (as2 ++ args) astack env cp m res hl1 h0 ha1 hp1 hb h with
-    ⟨N1, hN1, hres, hf⟩ | ⟨fuel1, env1, N1, hfu1, hx1, hs1, hc1⟩
+    ⟨N1, hN1, hres, hf⟩ | ⟨fuel1, env1, N1, hfu1, hx1, hs1, hc1, hi1⟩
   · exact Or.inl ⟨N1, hN1, hres, fun θ hs hu => hf θ hs ((hE θ).1 hu).1⟩
   · have hle : m.user.nextVar ≤ N1 := hs1.le
     rcases h2 fuel1 rest k as2 args astack env1 cp (bump m N1) res hl2 (Nat.lt_of_lt_of_le h0 hle)
         (fun a hm => (ha2 a hm).mono hle) (fun p hm => (hp2 p hm).mono hle) hs1.below hx1 with
-      ⟨N2, hN2, hres, hf⟩ | ⟨fuel2, env2, N2, hfu2, hx2, hs2, hc2⟩
+      ⟨N2, hN2, hres, hf⟩ | ⟨fuel2, env2, N2, hfu2, hx2, hs2, hc2, hi2⟩
     · refine Or.inl ⟨N2, Nat.le_trans hle hN2, by simpa using hres, ?_⟩
       intro θ hs hu
       obtain ⟨hu1, hu2⟩ := (hE θ).1 hu
       obtain ⟨θ', hag, hs'⟩ := (hs1.iff θ).2 ⟨hs, hu1⟩
       exact hf θ' hs' (EBelow.unifiesL ha2B hp2B θ θ' hag.symm hu2)
-    · refine Or.inr ⟨fuel2, env2, N2, Nat.le_trans hfu2 hfu1, by simpa using hx2, ?_, hc1.trans hc2⟩
-      exact (hs1.trans hs2 (EBelow.unifiesL ha2B hp2B)).congr (fun θ => (hE θ).symm)
+    · refine Or.inr ⟨fuel2, env2, N2, Nat.le_trans hfu2 hfu1, by simpa using hx2, ?_, hc1.trans hc2, ?_⟩
+      · exact (hs1.trans hs2 (EBelow.unifiesL ha2B hp2B)).congr (fun θ => (hE θ).symm)
+      · intro θ hs
+        obtain ⟨hs1', hu2⟩ := hi2 θ hs
+        obtain ⟨hs0, hu1⟩ := hi1 θ hs1'
+        refine ⟨hs0, ?_⟩
+        simp only [IUnifiesL, List.map_append] at hu1 hu2 ⊢
+        rw [hu1, hu2]
 
 /-- the builders of get_functor / get_list / get_partial, with their variables -/
 structure Builder2 (B : List Term → Term) : Prop extends Builder B where
   hasVar : ∀ (ts : List Term) (v : Nat), (B ts).hasVar v = true ↔ ∃ t ∈ ts, t.hasVar v = true
+
+/-- the tree of a built term only depends on the trees of the components -/
+theorem builder_interp_congr {B : List Term → Term} (hB : Builder2 B) {θ : IAsg} {ts ts' : List Term}
+    (h : ts.map (interp θ) = ts'.map (interp θ)) : interp θ (B ts) = interp θ (B ts') := by
+  have hl : ts.length = ts'.length := by simpa using congrArg List.length h
+  have key : ∀ us : List Term, us.length = ts.length →
+      B us = (B ((freshL 0 ts.length).map Term.var)).subst (fun v => us.getD v (.atom "")) := by
+    intro us hus
+    rw [hB.subst]
+    congr 1
+    apply List.ext_getElem?
+    intro i
+    by_cases hi : i < ts.length
+    · simp [Term.subst, hi, hus, List.getD]
+    · have h1 : ts.length ≤ i := by omega
+      simp [h1, hus]
+  rw [key ts rfl, key ts' hl.symm, interp_subst, interp_subst]
+  apply interp_congr
+  intro v hv
+  obtain ⟨t, ht, htv⟩ := (hB.hasVar _ v).1 hv
+  simp only [List.mem_map] at ht
+  obtain ⟨w, hw, rfl⟩ := ht
+  simp only [Term.hasVar, beq_iff_eq] at htv
+  subst htv
+  have hlt : w < ts.length := by have := freshL_mem hw; omega
+  have := congrArg (fun l => l[w]?) h
+  simp only [List.getElem?_map, List.getElem?_eq_getElem hlt, List.getElem?_eq_getElem (hl ▸ hlt),
+    Option.map_some, Option.some.injEq] at this
+  simp [List.getD, List.getElem?_eq_getElem hlt, List.getElem?_eq_getElem (hl ▸ hlt), this]
 
 theorem fresh_tok {N n : Nat} (h0 : 0 < N) : ∀ x ∈ (freshL N n).map Term.var, TOk (N + n) x := by
   intro x hx
@@ -199,7 +267,7 @@ theorem GetsR2_skel {vars : List Nat} {ops : List Op} {ps : List Term} (op : Op)
       intro v hv
       obtain ⟨t, hm, ht⟩ := (hB.hasVar _ v).1 hv
       exact fresh_tok h0 t hm v ht
-    rcases unifyThen_cases2 hx with ⟨env0, hu0, h0', hx0⟩ | ⟨rfl, hf⟩
+    rcases unifyThen_cases2 hx with ⟨env0, hu0, h0', hi0, hx0⟩ | ⟨rfl, hf⟩
     · have hb0 : SolBelow (m.user.nextVar + ps.length) env0 := by
         intro θ θ' hag hs
         obtain ⟨hs', he⟩ := (h0' θ).1 hs
@@ -209,7 +277,7 @@ theorem GetsR2_skel {vars : List Nat} {ops : List Op} {ps : List Term} (op : Op)
       rcases h n (Op.pop :: rest) k _ [] (.get args :: astack) env0 cp
           (bump m (m.user.nextVar + ps.length)) res (by simp) (Nat.lt_of_lt_of_le h0 hle) (fresh_tok h0)
           (fun p hm => (hpsT p hm).mono hle) hb0 (by simpa using hx0) with
-        ⟨N2, hN2, hres, hf⟩ | ⟨fuel1, env', N', hfu, hx1, hs1, hc1⟩
+        ⟨N2, hN2, hres, hf⟩ | ⟨fuel1, env', N', hfu, hx1, hs1, hc1, hi1⟩
       · refine Or.inl ⟨N2, Nat.le_trans hle hN2, by simpa using hres, ?_⟩
         intro θ hs hu
         exact skeleton_fail1 hB.toBuilder hb haB hps h0' hf θ hs (UnifiesL.single.1 hu)
@@ -217,9 +285,16 @@ theorem GetsR2_skel {vars : List Nat} {ops : List Op} {ps : List Term} (op : Op)
         | zero => simp [exec_zero] at hx1
         | succ f =>
           simp only [exec_pop_get, bump_bump] at hx1
-          refine Or.inr ⟨f, env', N', by omega, hx1, ?_, ?_⟩
+          refine Or.inr ⟨f, env', N', by omega, hx1, ?_, ?_, ?_⟩
           · exact (MGUStep.skeleton hB.toBuilder hb haB hps h0' hs1).congr (fun θ => UnifiesL.single.symm)
           · exact .step hle (haT.mono hle) hskT hu0 hc1
+          · intro θ hs
+            obtain ⟨hs0, hu⟩ := hi1 θ hs
+            obtain ⟨hse, he⟩ := hi0 θ hs0
+            refine ⟨hse, ?_⟩
+            simp only [IUnifiesL, List.map_cons, List.map_nil, List.cons.injEq, and_true]
+            rw [he]
+            exact builder_interp_congr hB hu
     · refine Or.inl ⟨m.user.nextVar + ps.length, hle, rfl, ?_⟩
       intro θ hs hu
       exact skeleton_fail0 hB.toBuilder hb haB hps hf θ hs (UnifiesL.single.1 hu)
@@ -352,7 +427,9 @@ theorem activation_head2 (c : Clause) (hargs : RepList) (rest : List Op) (hwf : 
       MGUStep (m.user.nextVar + c.vars.length) env
         (fun θ => UnifiesL θ args ((Rep.absArgs hargs).toList.map
           (Term.rename (renOf c.vars (freshL m.user.nextVar c.vars.length))))) N' env' ∧
-      UChain (m.user.nextVar + c.vars.length) env N' env') := by
+      UChain (m.user.nextVar + c.vars.length) env N' env' ∧
+      ISound env (fun θ => IUnifiesL θ args ((Rep.absArgs hargs).toList.map
+          (Term.rename (renOf c.vars (freshL m.user.nextVar c.vars.length))))) env') := by
   cases fuel with
   | zero => simp [evalThunk] at hrun
   | succ n =>
@@ -371,8 +448,8 @@ theorem activation_head2 (c : Clause) (hargs : RepList) (rest : List Op) (hwf : 
     have := hr _ _ (hren.mono hpre) n rest k args [] [] env parent
       (bump m (m.user.nextVar + c.vars.length)) res (by simp [hlen, absArgs_len])
       (by simp; omega) (fun a ha => (hargsB a ha).mono (by simp)) hP hE (by simpa using hrun)
-    rcases this with ⟨N', hN, hres, hf⟩ | ⟨fuel', env', N', hfu, hx, hs, hc⟩
+    rcases this with ⟨N', hN, hres, hf⟩ | ⟨fuel', env', N', hfu, hx, hs, hc, hi⟩
     · exact Or.inl ⟨N', hN, by simpa using hres, fun ⟨θ, hs, hu⟩ => hf θ hs hu⟩
-    · exact Or.inr ⟨fuel', env', N', by omega, by simpa using hx, hs, hc⟩
+    · exact Or.inr ⟨fuel', env', N', by omega, by simpa using hx, hs, hc, hi⟩
 
 end PrologVerif.Refine
